@@ -37,6 +37,7 @@ static std::string dumpVar(const Var& v) {
 }
 
 static std::string exactKey(XdlParser& p) {
+	if (p._state == S_ERR) return "ERR"; // absorbing: parse() returns at once and value() is invalid whatever else the parser holds
 	std::string s = fmt("s%d p%d c%d u%d|", (int)p._state, (p._state == S_ESCAPE || p._state == S_UNICODECHAR) ? (int)p._prevState : -1, (int)p._inComment, p._unicodeCount);
 	for (int i = 0; i < p._context.length(); i++) s += char('0' + p._context[i]);
 	s += "|" + vfx::S(p._buffer) + "|";
@@ -51,6 +52,7 @@ static std::string exactKey(XdlParser& p) {
 static char lenClass(int n) { return n <= 17 ? (char)('A' + n) : 'z'; } // exact up to the last inline/heap boundary (Var 7/8, String 15/16), one class beyond
 static std::string abstractKey(XdlParser& p, const rj::Ref& r) {
 	int st = p._state;
+	if (st == S_ERR) return "ERR";
 	std::string s = fmt("s%d p%d c%d u%d|", st, (st == S_ESCAPE || st == S_UNICODECHAR) ? (int)p._prevState : -1, (int)p._inComment, p._unicodeCount);
 	for (int i = 0; i < p._context.length(); i++) s += char('0' + p._context[i]);
 	s += "|";
@@ -184,6 +186,33 @@ static void deepCases() {
 	}
 }
 
+// ---- documents with snippets (comments, separators, stray comment openers) inserted at every position, singly and in pairs
+static const char* DOCS[] = { "{\"a\":1,\"b\":[true,null,\"x\"],\"c\":{\"d\":-1.5e3}}", "[1,2,{\"k\":\"v\"}]", "{\"a\":1}", "\"str\"", "[[],{}]", "{\"a\":{\"b\":{\"c\":[1]}}}", "{\"a\":1 \"b\":2}",
+	"{a=1,b=[Y,N],c=x{d=1}}", "{a=1\nb=2}", "[1\n2]", "cls{x=1}", "{a=\"s\"\nb=[1\n2]}", "-12.5e-3", "[1 , 2]" };
+static const char* SNIPS[] = { "//c\n", "//\n", "/*c*/", "/**/", "/* * */", "//c\r", "/", "/*", "//", " ", "\n", ",", "*/", "\"", "}" };
+enum { NDOCS = sizeof DOCS / sizeof *DOCS, NSNIPS = sizeof SNIPS / sizeof *SNIPS };
+static int W_SNIP, W_SNIP_VALID;
+static void snippetText(const std::string& t, const std::string& kase) {
+	vf::cur(kase); vf::add(W_SNIP);
+	vf::asan_clear();
+	XdlParser a, b; a.parse(t.c_str()); { char c[2] = { 0, 0 }; for (size_t i = 0; i < t.size(); i++) { c[0] = t[i]; b.parse(c); } }
+	if (exactKey(a) != exactKey(b)) vf::violation("chunk_dependence", "feeding '" + t + "' whole and byte by byte gives different parser states", kase);
+	for (size_t cut = 1; cut < t.size(); cut++) { XdlParser q; feedSyms(q, t, 2, cut); if (exactKey(q) != exactKey(a)) { vf::violation("chunk_dependence", fmt("cutting '%s' at byte %d gives a different parser state", t.c_str(), (int)cut), kase); break; } }
+	Var v = Json::decode(vfx::A(t));
+	rj::Ref r; r.feed(t);
+	if (!r.excluded && r.complete()) { vf::add(W_SNIP_VALID); std::string want = rj::dump(r.value()); if (!v.ok()) vf::violation("reject_valid", "valid RFC 8259 document rejected: '" + t + "'", kase); else if (dumpVar(v) != want) vf::violation("wrong_value", "'" + t + "' decoded to " + dumpVar(v) + ", reference " + want, kase); }
+	else if (!r.excluded && r.openTopLevel() && v.ok()) vf::violation("accept_truncated", "'" + t + "' stops inside an open top-level value but was accepted", kase);
+	if (vf::asan_tripped()) { vf::violation("asan", "ASan " + vf::asan_what() + " decoding '" + t + "'", kase); vf::asan_clear(); }
+}
+static std::string snippetCaseText(int d, int p, int s1, int q, int s2) { std::string t = DOCS[d]; if (q >= 0) t.insert(q, SNIPS[s2]); t.insert(p, SNIPS[s1]); return t; } // q >= p: inserted first so that p stays valid
+static void snippetItem(int d, int p, bool pairs) {
+	int L = (int)strlen(DOCS[d]);
+	for (int s1 = 0; s1 < NSNIPS; s1++) {
+		snippetText(snippetCaseText(d, p, s1, -1, 0), fmt("snip:%d:%d:%d:-1:0", d, p, s1));
+		if (pairs && L <= 26) for (int q = p; q <= L; q++) for (int s2 = 0; s2 < 9; s2++) snippetText(snippetCaseText(d, p, s1, q, s2), fmt("snip:%d:%d:%d:%d:%d", d, p, s1, q, s2));
+	}
+}
+
 template <class S>
 static vf::BfsResult runPass(S& sys, int depth, const char* infoKey) {
 	vf::Bfs<S> b(sys, sys.label);
@@ -201,7 +230,7 @@ int main(int argc, char** argv) {
 	for (int i = 0; i < NSTATES; i++) W_STATE[i] = vf::counter(fmt("w.state_%s", sn[i]).c_str());
 	for (int i = 0; i < NCTX; i++) W_CTX[i] = vf::counter(fmt("w.context_%s", cn[i]).c_str());
 	W_PUSHBACK = vf::counter("w.one_char_push_back_taken"); W_ACCEPT = vf::counter("w.valid_documents_compared"); W_REJECT_OPEN = vf::counter("w.open_top_level_prefixes_checked"); W_LENIENT = vf::counter("w.non_json_accepted_leniently");
-	W_EXCLUDED = vf::counter("w.outside_statement_nul_or_lone_surrogate_or_bad_utf8"); C_PYLINES = vf::counter("texts_cross_checked_with_python"); W_DEEP = vf::counter("w.deep_documents");
+	W_EXCLUDED = vf::counter("w.outside_statement_nul_or_lone_surrogate_or_bad_utf8"); C_PYLINES = vf::counter("texts_cross_checked_with_python"); W_DEEP = vf::counter("w.deep_documents"); W_SNIP = vf::counter("w.documents_with_inserted_snippets"); W_SNIP_VALID = vf::counter("w.snippet_documents_that_are_valid_json");
 	bool T = vf::opt.thorough();
 	JsonSysH A(false, 99, 64, "exact"), B(true, 3, T ? 14 : 40, "abstract");
 	if (vf::opt.replay) {
@@ -209,6 +238,7 @@ int main(int argc, char** argv) {
 		vf::parallel(1, [&](uint64_t) {
 			if (k.compare(0, 5, "exact") == 0) { vf::Bfs<JsonSysH> b(A, "exact"); vf::Hist h = vf::hist_parse(k.substr(6)); b.run_one(vf::Hist(), -1, 0, false); vf::H128 key; b.run_one(h, -1, &key); }
 			else if (k.compare(0, 8, "abstract") == 0) { vf::Bfs<JsonSysH> b(B, "abstract"); vf::Hist h = vf::hist_parse(k.substr(9)); b.run_one(vf::Hist(), -1, 0, false); vf::H128 key; b.run_one(h, -1, &key); }
+			else if (k.compare(0, 5, "snip:") == 0) { int d, p2, s1, q, s2; if (sscanf(k.c_str(), "snip:%d:%d:%d:%d:%d", &d, &p2, &s1, &q, &s2) == 5) snippetText(snippetCaseText(d, p2, s1, q, s2), k); }
 			else deepCases();
 		});
 		return vf::finish();
@@ -218,6 +248,7 @@ int main(int argc, char** argv) {
 	vf::BfsResult rb = runPass(B, T ? 10 : 8, "pass_B_abstract");
 	vf::add(cS, ra.states + rb.states); vf::add(cT, ra.transitions + rb.transitions); vf::add(cTr, ra.traces + rb.traces);
 	vf::parallel(1, [&](uint64_t) { deepCases(); });
+	{ std::vector<std::pair<int, int> > items; for (int d = 0; d < NDOCS; d++) for (int q = 0; q <= (int)strlen(DOCS[d]); q++) items.push_back(std::make_pair(d, q)); vf::parallel(items.size(), [&](uint64_t i) { snippetItem(items[i].first, items[i].second, true); }); }
 	// abstraction check: up to pass A's depth, the abstract states reached through the exact search and through the abstracted search must coincide
 	{
 		std::set<std::string> sa, sb; char line[128];
